@@ -261,7 +261,10 @@ class ApproximationScheme(object):
                         # local index into var
                         vec_idx = sinds.copy()
                         # convert into index into input or output vector
-                        vec_idx += vec.get_range(wrt)[0]
+                        vstart, vstop = vec.get_range(wrt)
+                        # negative entries count from the end of the variable
+                        vec_idx[vec_idx < 0] += vstop - vstart
+                        vec_idx += vstart
                         # Directional derivatives for quick deriv checking.
                         # Place the indices in a list so that they are all stepped at the same time.
                         if directional:
